@@ -3879,3 +3879,9 @@ mod tests {
         assert_eq!(remaining_length_to_total_size(268435455), 268435460); // 1 + 4 + 268435455
     }
 }
+
+#[cfg(all(feature = "verif-hooks", kani))]
+#[allow(dead_code, unused)]
+pub(crate) mod verif_harness {
+    include!(concat!(env!("VERIF_HARNESS_DIR"), "/core_h.rs"));
+}
